@@ -1,5 +1,7 @@
 import LlgoVerif.Util
 import LlgoVerif.Spec.GoArith
+import LlgoVerif.Spec.GoFloat
+import LlgoVerif.Model.GoComplex
 /-! Line-protocol driver for C02: evaluates the Go specification (`Spec/GoArith.lean`).
     request: `<cls> <s:0|1> <w> <s2> <w2> <c> <x> <y>`  (x, y: decimal bit patterns; c: constant operand or 0)
     answer : decimal bit pattern of the result (w or w2 bits) | `panic divzero` | `panic negshift` -/
@@ -52,11 +54,60 @@ def evalOp (cls : String) (s : Bool) (w : Nat) (s2 : Bool) (w2 : Nat) (c : Int) 
   | "shrc" => toString (GoArith.shrE s x c.toNat).toNat
   | _ => "bad-op"
 
+/-- float requests: `<cls> <s> <w> <s2> <w2> 0 <x> <y>`; `w` is the float width except for `i2f` (integer width `w`,
+    float width `w2`); `f2i`: float width `w`, integer `s2`/`w2`, answer `impl` where Go leaves the result open -/
+def evalF (cls : String) (s : Bool) (w : Nat) (s2 : Bool) (w2 : Nat) (xn yn : Nat) : String :=
+  let x := BitVec.ofNat w xn
+  let y := BitVec.ofNat w yn
+  match cls with
+  | "fadd" => toString (GoFloat.add x y).toNat
+  | "fsub" => toString (GoFloat.sub x y).toNat
+  | "fmul" => toString (GoFloat.mul x y).toNat
+  | "fquo" => toString (GoFloat.quo x y).toNat
+  | "fneg" => toString (GoFloat.neg x).toNat
+  | "feq" => b2s (GoFloat.eq x y)
+  | "fne" => b2s (GoFloat.ne x y)
+  | "flt" => b2s (GoFloat.lt x y)
+  | "fle" => b2s (GoFloat.le x y)
+  | "fgt" => b2s (GoFloat.gt x y)
+  | "fge" => b2s (GoFloat.ge x y)
+  | "i2f" => toString (GoFloat.ofInt s w2 x).toNat
+  | "f2i" => match GoFloat.toInt s2 w2 x with
+             | some v => toString v.toNat
+             | none => "impl"
+  | "fconv" => toString (GoFloat.conv w2 x).toNat
+  | _ => "bad-op"
+
+def showP (p : Nat × Nat) : String := toString p.1 ++ " " ++ toString p.2
+
+/-- complex requests: `<cls> <w> <w2> <a> <b> <c> <d>` (component width `w`; `w2` only for `cconv`) -/
+def evalC (cls : String) (w w2 : Nat) (a b c d : Nat) : String :=
+  let F := SoftFloat.Fmt.ofWidth w
+  match cls with
+  | "cadd" => showP (GoComplex.cadd F a b c d)
+  | "csub" => showP (GoComplex.csub F a b c d)
+  | "cmul" => showP (GoComplex.cmul F a b c d)
+  | "cquo" => showP (GoComplex.cquo F a b c d)
+  | "cneg" => showP (GoComplex.cneg F a b)
+  | "ceq" => b2s (GoComplex.ceq F a b c d)
+  | "cne" => b2s (!GoComplex.ceq F a b c d)
+  | "cconv" => showP (GoComplex.cconv F (SoftFloat.Fmt.ofWidth w2) a b)
+  | _ => "bad-op"
+
+def isFloatCls (cls : String) : Bool :=
+  cls.startsWith "f" || cls == "i2f"
+
 def handle (line : String) : String :=
   match fields line with
+  | [cls, w, w2, a, b, c, d] =>
+    match w.toNat?, w2.toNat?, a.toNat?, b.toNat?, c.toNat?, d.toNat? with
+    | some w, some w2, some a, some b, some c, some d => evalC cls w w2 a b c d
+    | _, _, _, _, _, _ => "bad-op"
   | [cls, s, w, s2, w2, c, x, y] =>
     match w.toNat?, w2.toNat?, c.toInt?, x.toNat?, y.toNat? with
-    | some w, some w2, some c, some x, some y => evalOp cls (s == "1") w (s2 == "1") w2 c x y
+    | some w, some w2, some c, some x, some y =>
+      if isFloatCls cls then evalF cls (s == "1") w (s2 == "1") w2 x y
+      else evalOp cls (s == "1") w (s2 == "1") w2 c x y
     | _, _, _, _, _ => "bad-op"
   | _ => "bad-op"
 
